@@ -165,6 +165,10 @@ pub trait Sim: Sync {
     /// Names of the sub-batches (fault-free / faulty / ...); run `i` belongs to sub-batch
     /// `i % sub_batches().len()`.
     fn sub_batches(&self) -> Vec<&'static str>;
+    /// Sub-batch of run `i` (default: round robin).
+    fn sub_batch_of(&self, i: u64) -> usize {
+        (i as usize) % self.sub_batches().len().max(1)
+    }
     fn plan(&self, rng: &mut Rng, sub_batch: usize) -> Self::Scenario;
     fn execute(&self, sc: &Self::Scenario, ctx: &ExecCtx<'_>) -> Outcome;
 
@@ -394,7 +398,7 @@ pub fn run_batch<S: Sim>(sim: &S, opts: &Opts) -> BatchReport {
     let (dq, dt) = sim.default_runs();
     let runs = opts.runs.unwrap_or(if opts.tier == "thorough" { dt } else { dq });
     let subs = sim.sub_batches();
-    let nsub = subs.len().max(1);
+    let _ = &subs;
     let next = AtomicU64::new(0);
     let deadline = opts.max_wall_s;
     let accs: Mutex<Vec<WorkerAcc<S::Scenario>>> = Mutex::new(Vec::new());
@@ -460,7 +464,7 @@ pub fn run_batch<S: Sim>(sim: &S, opts: &Opts) -> BatchReport {
                     slot_started[my].store(t0.elapsed().as_millis() as u64, Ordering::Relaxed);
                     slots[my].store(i, Ordering::Relaxed);
                     let run_seed = mix(opts.seed, i);
-                    let sub = (i as usize) % nsub;
+                    let sub = sim.sub_batch_of(i);
                     let mut rng = Rng::new(run_seed);
                     let sc = sim.plan(&mut rng, sub);
                     let out = execute_caught(sim, &sc, &ctx);
@@ -606,7 +610,7 @@ pub fn run_batch<S: Sim>(sim: &S, opts: &Opts) -> BatchReport {
             "verif_seed": opts.seed,
             "run_index": i,
             "run_seed": mix(opts.seed, *i),
-            "sub_batch": subs.get((*i as usize) % nsub),
+            "sub_batch": subs.get(sim.sub_batch_of(*i)),
             "violation": v1,
             "original_violation": v,
             "shrink_executions": used,
@@ -713,9 +717,8 @@ pub fn run_batch<S: Sim>(sim: &S, opts: &Opts) -> BatchReport {
 
 /// Print the scenario planned for run `i` of a batch (debug aid).
 pub fn print_plan<S: Sim>(sim: &S, seed: u64, i: u64) {
-    let nsub = sim.sub_batches().len().max(1);
     let mut rng = Rng::new(mix(seed, i));
-    let sc = sim.plan(&mut rng, (i as usize) % nsub);
+    let sc = sim.plan(&mut rng, sim.sub_batch_of(i));
     println!("{}", serde_json::to_string(&json!({"property": sim.property(), "scenario": sc})).unwrap());
 }
 
@@ -771,5 +774,129 @@ pub fn replay<S: Sim>(sim: &S, file: &Value, verif_dir: &str) -> i32 {
             println!("REPLAY no violation on this tree (log_hash={})", out.log_hash);
             0
         }
+    }
+}
+
+
+// ------------------------------------------------------------------------------------------------
+// Two simulators deciding one property: `a` gets most runs, every `every`-th run goes to `b`
+// ------------------------------------------------------------------------------------------------
+
+pub struct Plus<A, B> {
+    pub a: A,
+    pub b: B,
+    /// run i goes to `b` when i % every == every - 1 (every == 1: all runs)
+    pub every: u64,
+    pub name: &'static str,
+}
+
+#[derive(Clone, Serialize, serde::Deserialize)]
+pub enum PlusSc<X, Y> {
+    A(X),
+    B(Y),
+}
+
+impl<A: Sim, B: Sim> Sim for Plus<A, B> {
+    type Scenario = PlusSc<A::Scenario, B::Scenario>;
+
+    fn name(&self) -> &'static str {
+        self.name
+    }
+    fn property(&self) -> &'static str {
+        self.a.property()
+    }
+    fn sub_batches(&self) -> Vec<&'static str> {
+        let mut v = self.a.sub_batches();
+        v.extend(self.b.sub_batches());
+        v
+    }
+    fn sub_batch_of(&self, i: u64) -> usize {
+        let na = self.a.sub_batches().len().max(1);
+        let nb = self.b.sub_batches().len().max(1);
+        let every = self.every.max(1);
+        if i % every == every - 1 {
+            na + ((i / every) as usize) % nb
+        } else {
+            (i as usize) % na
+        }
+    }
+    fn plan(&self, rng: &mut Rng, sub_batch: usize) -> Self::Scenario {
+        let na = self.a.sub_batches().len().max(1);
+        if sub_batch < na {
+            PlusSc::A(self.a.plan(rng, sub_batch))
+        } else {
+            PlusSc::B(self.b.plan(rng, sub_batch - na))
+        }
+    }
+    fn execute(&self, sc: &Self::Scenario, ctx: &ExecCtx<'_>) -> Outcome {
+        match sc {
+            PlusSc::A(s) => self.a.execute(s, ctx),
+            PlusSc::B(s) => self.b.execute(s, ctx),
+        }
+    }
+    fn shrink_len(&self, sc: &Self::Scenario) -> usize {
+        match sc {
+            PlusSc::A(s) => self.a.shrink_len(s),
+            PlusSc::B(s) => self.b.shrink_len(s),
+        }
+    }
+    fn shrink_remove(&self, sc: &Self::Scenario, from: usize, to: usize) -> Self::Scenario {
+        match sc {
+            PlusSc::A(s) => PlusSc::A(self.a.shrink_remove(s, from, to)),
+            PlusSc::B(s) => PlusSc::B(self.b.shrink_remove(s, from, to)),
+        }
+    }
+    fn simplify(&self, sc: &Self::Scenario) -> Vec<Self::Scenario> {
+        match sc {
+            PlusSc::A(s) => self.a.simplify(s).into_iter().map(PlusSc::A).collect(),
+            PlusSc::B(s) => self.b.simplify(s).into_iter().map(PlusSc::B).collect(),
+        }
+    }
+    fn rule_text(&self) -> String {
+        format!("{} || {}", self.a.rule_text(), self.b.rule_text())
+    }
+    fn components_real(&self) -> Vec<&'static str> {
+        let mut v = self.a.components_real();
+        for x in self.b.components_real() {
+            if !v.contains(&x) {
+                v.push(x);
+            }
+        }
+        v
+    }
+    fn components_stub(&self) -> Vec<&'static str> {
+        let mut v = self.a.components_stub();
+        for x in self.b.components_stub() {
+            if !v.contains(&x) {
+                v.push(x);
+            }
+        }
+        v
+    }
+    fn fault_kinds(&self) -> Vec<&'static str> {
+        let mut v = self.a.fault_kinds();
+        for x in self.b.fault_kinds() {
+            if !v.contains(&x) {
+                v.push(x);
+            }
+        }
+        v
+    }
+    fn probe_kinds(&self) -> Vec<&'static str> {
+        let mut v = self.a.probe_kinds();
+        for x in self.b.probe_kinds() {
+            if !v.contains(&x) {
+                v.push(x);
+            }
+        }
+        v
+    }
+    fn assumptions(&self) -> Vec<String> {
+        let mut v = self.a.assumptions();
+        v.extend(self.b.assumptions());
+        v
+    }
+    fn default_runs(&self) -> (u64, u64) {
+        self.a.default_runs()
     }
 }
